@@ -432,13 +432,30 @@ func ClockCmd(args []string) {
 		repo := hx.InitRepo(dir)
 		_, err := repo.GetOrCreateClock("bugs-edit")
 		hx.Must(err)
+		// every other round the goroutines are the first users of the clock in this process: the repository is opened anew
+		// (without clock loaders, as the commands open it) on a clock file that holds a value, and all start at once
+		cold := r%2 == 1
+		if cold {
+			for k := 0; k < 1+r%5; k++ {
+				_, err := repo.Increment("bugs-edit")
+				hx.Must(err)
+			}
+			hx.Must(repo.Close())
+			repo, err = repository.OpenGoGitRepo(dir, "git-bug", nil)
+			hx.Must(err)
+		}
 		var wg sync.WaitGroup
 		workers := 2 + r%7
+		if cold {
+			workers = []int{2, 4, 8, 16}[(r/2)%4]
+		}
 		issued := make([][]int, workers)
+		start := make(chan struct{})
 		for g := 0; g < workers; g++ {
 			wg.Add(1)
 			go func(g int) {
 				defer wg.Done()
+				<-start
 				for k := 0; k < 20; k++ {
 					t, err := repo.Increment("bugs-edit")
 					hx.Must(err)
@@ -446,6 +463,7 @@ func ClockCmd(args []string) {
 				}
 			}(g)
 		}
+		close(start)
 		wg.Wait()
 		c, _ := repo.GetOrCreateClock("bugs-edit")
 		mem := int(c.Time())
@@ -464,7 +482,7 @@ func ClockCmd(args []string) {
 				unique = false
 			}
 		}
-		out.Put(map[string]interface{}{"ev": "Clock", "workers": workers, "mem": mem, "file": file, "issued": len(all), "unique": unique, "max": all[len(all)-1]})
+		out.Put(map[string]interface{}{"ev": "Clock", "cold": cold, "workers": workers, "mem": mem, "file": file, "issued": len(all), "unique": unique, "max": all[len(all)-1]})
 		_ = repo.Close()
 		_ = os.RemoveAll(dir)
 	}
